@@ -44,6 +44,19 @@ DidChange(f, t) == /\ s.alive /\ s.buf[f] # NoText /\ s.buf[f] # t
                    /\ LET b == [s.buf EXCEPT ![f] = t]
                           fm == NewS(b) IN s' = Insert(s, disk, f, t, Ok(b), "main", TreeNow(b), LAMBDA g : DiagOf(fm, g), Deviations)
                    /\ hist' = Append(hist, Ev("change", f, t)) /\ UNCHANGED disk
+(* didChange with no entry / with two entries (the client's buffer is the last one) *)
+DidChange0(f) == /\ s.alive /\ s.buf[f] # NoText
+                 /\ s' = (IF EmptyChangeKills(Deviations) THEN Die(s, "DidChangeFirstEntryWins") ELSE s)
+                 /\ UNCHANGED <<disk, hist>>
+DidChange2(f, t1, t2) == /\ s.alive /\ s.buf[f] # NoText /\ t1 # t2
+                         /\ LET ts == ChangeText(<<t1, t2>>, Deviations)
+                                bc == [s.cli EXCEPT ![f] = t2]          \* what an ideal server would analyse
+                                b == [s.buf EXCEPT ![f] = ts]
+                                fm == NewS(b) IN
+                            s' = InsertC(s, disk, f, ts, t2, Ok(b), "main", TreeNow(b), LAMBDA g : DiagOf(fm, g), Deviations)
+                         /\ UNCHANGED <<disk, hist>>
+(* any message about a document that is not a file *)
+NonFile == /\ s.alive /\ s' = (IF NonFileKills(Deviations) THEN Die(s, "NonFileUriPanics") ELSE s) /\ UNCHANGED <<disk, hist>>
 DidClose(f) == /\ s.alive /\ s.buf[f] # NoText
                /\ LET b == [s.buf EXCEPT ![f] = NoText]
                       fm == NewS(b) IN s' = Close(s, disk, f, Ok(b), "main", TreeNow(b), LAMBDA g : DiagOf(fm, g), Deviations)
@@ -60,7 +73,7 @@ Request(kind, f, pc) ==
   /\ UNCHANGED disk
 
 Notif == \E f \in Files : (\E t \in TextsOf[f] : DidOpen(f, t) \/ DidChange(f, t)) \/ DidClose(f)
-NextDesign == Notif \/ \E kind \in Kinds, f \in {"main", "inc", "other"}, pc \in PosClasses : Request(kind, f, pc)
+NextDesign == Notif \/ NonFile \/ (\E f \in {"main", "inc"} : DidChange0(f) \/ \E t1, t2 \in TextsOf[f] : DidChange2(f, t1, t2)) \/ \E kind \in Kinds, f \in {"main", "inc", "other"}, pc \in PosClasses : Request(kind, f, pc)
 NextGen == Notif \/ Request("rename", "main", "valid")
 SpecDesign == Init /\ [][NextDesign]_vars
 SpecGen == Init /\ [][NextGen]_vars
@@ -69,15 +82,15 @@ HistBound == Len(hist) <= MaxHist
 GenInit == disk["inc"] = "ia" /\ disk["main"] \in {"ma", NoText}     \* exported scripts run on two disk layouts: entry file on disk / only ever a buffer
 
 (* ---------------------------------------------------------------- properties *)
-EffNow == Eff(disk, s.buf)
+EffNow == Eff(disk, s.cli)
 SeenA(fm) == [f \in TreeOf(fm) |-> fm[f]]
-InvFreshAnalysis == s.alive => FreshAnalysis(s, disk, Ok(s.buf), "main", SeenA)
-InvFreshShown == s.alive => FreshShown(s, disk, TreeNow(s.buf), LAMBDA g : DiagOf(EffNow, g))
+InvFreshAnalysis == s.alive => FreshAnalysis(s, disk, Ok(s.cli), "main", SeenA)
+InvFreshShown == s.alive => FreshShown(s, disk, TreeNow(s.cli), LAMBDA g : DiagOf(EffNow, g))
 InvTotal == Total(s)
 (* ... weakened only by the witnesses of the recorded deviations *)
-DroppedOnly == \A g \in Files : s.shown[g] # (IF g \in TreeNow(s.buf) THEN DiagOf(EffNow, g) ELSE "none") => g \notin TreeNow(s.buf)
-InvFreshAnalysisW == s.alive => (FreshAnalysis(s, disk, Ok(s.buf), "main", SeenA) \/ CloseWitness(s) \/ TaintWitness(s))
-InvFreshShownW == s.alive => (FreshShown(s, disk, TreeNow(s.buf), LAMBDA g : DiagOf(EffNow, g)) \/ CloseWitness(s) \/ DroppedOnly)
+DroppedOnly == \A g \in Files : s.shown[g] # (IF g \in TreeNow(s.cli) THEN DiagOf(EffNow, g) ELSE "none") => g \notin TreeNow(s.cli)
+InvFreshAnalysisW == s.alive => (FreshAnalysis(s, disk, Ok(s.cli), "main", SeenA) \/ CloseWitness(s) \/ TaintWitness(s) \/ LagWitness(s))
+InvFreshShownW == s.alive => (FreshShown(s, disk, TreeNow(s.cli), LAMBDA g : DiagOf(EffNow, g)) \/ CloseWitness(s) \/ LagWitness(s) \/ DroppedOnly)
 InvTotalW == s.alive \/ s.death \in Deviations
 TypeOK == /\ s.alive \in BOOLEAN /\ s.taint \in BOOLEAN /\ s.stale \subseteq Files
           /\ \A f \in Files : s.buf[f] \in TextsOf[f] \cup {NoText} /\ s.an[f] \in TextsOf[f] \cup {NoText}
